@@ -181,14 +181,14 @@ func factsOf(n *ANode, path []string, multi []bool, out *[]Fact) {
 // ---------- generation ----------
 
 type DocGen struct {
-	prime   *big.Int // integers are generated inside the ranges of this prime (default: BN254)
-	r       *Rng
-	sch     *Schema
-	nid     int
-	maxDep  int
-	noGraph bool
-	emptyOK bool // allow empty strings
-	multiPct int // chance (percent) that a field is multi-valued; 0 = default 35
+	prime    *big.Int // integers are generated inside the ranges of this prime (default: BN254)
+	r        *Rng
+	sch      *Schema
+	nid      int
+	maxDep   int
+	noGraph  bool
+	emptyOK  bool // allow empty strings
+	multiPct int  // chance (percent) that a field is multi-valued; 0 = default 35
 }
 
 var xsdLitTypes = []string{"integer", "nonNegativeInteger", "positiveInteger", "negativeInteger", "nonPositiveInteger", "boolean", "dateTime", "double", "string", "", "", "custom"}
